@@ -19,7 +19,7 @@ open WW WW.Vault
     does not lower the assets backing one share. -/
 theorem price_step {s s' : St} (op : Op) (hI : Inv s) (h : step s op = some s') :
     Inv s' ∧ (0 < s.sup → backing s * s'.sup ≤ backing s' * s.sup) := by
-  cases op with
+  induction op generalizing s s' with
   | deposit who amount sent =>
     simp only [step] at h
     split at h
@@ -93,6 +93,15 @@ theorem price_step {s s' : St} (op : Op) (hI : Inv s) (h : step s op = some s') 
   | nextLoanBy who amount payload => exact absurd h (by simp [step])
   | completeLoanBy who initiator amount => exact absurd h (by simp [step])
   | foreign k who a b => exact absurd h (by simp [step])
+  | attach who sel n op ih =>
+    -- the stray coins arrive (at most a donation: backing does not fall, supply untouched), then the message runs
+    obtain ⟨dst, s1, _, _, ha, hs⟩ := attach_parts h
+    have A := arrive_spec hI ha
+    obtain ⟨hI', hp⟩ := ih A.inv hs
+    refine ⟨hI', fun hpos => ?_⟩
+    have h1 := hp (by rw [A.sup]; exact hpos)
+    rw [A.sup] at h1
+    exact le_trans (Nat.mul_le_mul_right _ A.backing_le) h1
 
 /-- The invariant holds in every reachable state (failed operations leave the state untouched). -/
 theorem inv_reach {s : St} (hI : Inv s) (ops : List Op) : Inv (reach s ops) := by
@@ -106,6 +115,63 @@ theorem inv_reach {s : St} (hI : Inv s) (ops : List Op) : Inv (reach s ops) := b
     | none => exact hI
     | some s' => exact (price_step op hI h).1
 
+/-- the vault's own stake never moves once it exists -/
+private theorem lpVault_keep {s s' : St} (op : Op) (hI : Inv s) (h : step s op = some s') :
+    s'.lpVault = s.lpVault ∨ s.sup = 0 := by
+  induction op generalizing s s' with
+  | deposit who amount sent =>
+    simp only [step] at h; split at h
+    · cases h
+    · obtain ⟨_, rfl⟩ := deposit_ok_of_some h
+      by_cases h0 : s.sup = 0
+      · exact Or.inr h0
+      · left; simp only [depositRes]; rw [if_neg h0]; rfl
+  | withdraw who lp =>
+    simp only [step] at h; split at h
+    · cases h
+    · obtain ⟨_, _, _, _, _, _, _, a8, _⟩ := withdraw_spec_gen hI.abLen hI.lbLen (by omega) h
+      exact Or.inl a8
+  | collect =>
+    simp only [step] at h
+    unfold collect at h
+    split at h
+    · injection h with h; subst h; exact Or.inl rfl
+    · split at h
+      · cases h
+      · injection h with h; subst h; exact Or.inl rfl
+  | setFees f =>
+    simp only [step] at h; split at h
+    · injection h with h; subst h; exact Or.inl rfl
+    · cases h
+  | setToggles d w f => simp only [step] at h; injection h with h; subst h; exact Or.inl rfl
+  | loan amount cb =>
+    simp only [step] at h
+    exact Or.inl (loan_spec hI h).lpVault
+  | donate who n =>
+    simp only [step] at h; split at h
+    · cases h
+    · obtain ⟨rfl, _⟩ := payIn_spec hI.abLen (by omega) h
+      exact Or.inl rfl
+  | routerLoan initiator amount payload =>
+    simp only [step] at h; split at h
+    · cases h
+    · exact Or.inl (router_loan_spec hI (by omega) h).lpVault
+  | routerLoanNone who payload => simp only [step] at h; injection h with h; subst h; exact Or.inl rfl
+  | routerLoanMulti who a1 a2 payload => exact absurd h (by simp [step])
+  | fundRouter who n =>
+    simp only [step] at h; split at h
+    · cases h
+    · exact Or.inl (move_inv hI (by omega) (by omega) h).2.2.2.1
+  | nextLoanBy who amount payload => exact absurd h (by simp [step])
+  | completeLoanBy who initiator amount => exact absurd h (by simp [step])
+  | foreign k who a b => exact absurd h (by simp [step])
+  | attach who sel n op ih =>
+    obtain ⟨dst, s1, _, _, ha, hs⟩ := attach_parts h
+    have A := arrive_spec hI ha
+    rcases ih A.inv hs with h1 | h1
+    · left; rw [h1, A.lpVault]
+    · right; rw [← A.sup]; exact h1
+
 /-- Once shares exist they exist forever (the locked minimum can never be withdrawn). -/
 theorem supply_stays_positive {s s' : St} (op : Op) (hI : Inv s) (h : step s op = some s')
     (hpos : 0 < s.sup) : 0 < s'.sup := by
@@ -114,52 +180,7 @@ theorem supply_stays_positive {s s' : St} (op : Op) (hI : Inv s) (h : step s op 
   · -- s'.sup = 0 ∧ s'.lpVault = 0 is impossible: the vault's own stake never moves once created
     exfalso
     have hv := hI.sup_pos_locked (by omega)
-    have hkeep : s'.lpVault = s.lpVault ∨ s.sup = 0 := by
-      cases op with
-      | deposit who amount sent =>
-        simp only [step] at h; split at h
-        · cases h
-        · obtain ⟨_, rfl⟩ := deposit_ok_of_some h
-          left; simp only [depositRes]; rw [if_neg (by omega)]; rfl
-      | withdraw who lp =>
-        simp only [step] at h; split at h
-        · cases h
-        · obtain ⟨_, _, _, _, _, _, _, a8, _⟩ := withdraw_spec_gen hI.abLen hI.lbLen (by omega) h
-          exact Or.inl a8
-      | collect =>
-        simp only [step] at h
-        unfold collect at h
-        split at h
-        · injection h with h; subst h; exact Or.inl rfl
-        · split at h
-          · cases h
-          · injection h with h; subst h; exact Or.inl rfl
-      | setFees f =>
-        simp only [step] at h; split at h
-        · injection h with h; subst h; exact Or.inl rfl
-        · cases h
-      | setToggles d w f => simp only [step] at h; injection h with h; subst h; exact Or.inl rfl
-      | loan amount cb =>
-        simp only [step] at h
-        exact Or.inl (loan_spec hI h).lpVault
-      | donate who n =>
-        simp only [step] at h; split at h
-        · cases h
-        · obtain ⟨rfl, _⟩ := payIn_spec hI.abLen (by omega) h
-          exact Or.inl rfl
-      | routerLoan initiator amount payload =>
-        simp only [step] at h; split at h
-        · cases h
-        · exact Or.inl (router_loan_spec hI (by omega) h).lpVault
-      | routerLoanNone who payload => simp only [step] at h; injection h with h; subst h; exact Or.inl rfl
-      | routerLoanMulti who a1 a2 payload => exact absurd h (by simp [step])
-      | fundRouter who n =>
-        simp only [step] at h; split at h
-        · cases h
-        · exact Or.inl (move_inv hI (by omega) (by omega) h).2.2.2.1
-      | nextLoanBy who amount payload => exact absurd h (by simp [step])
-      | completeLoanBy who initiator amount => exact absurd h (by simp [step])
-      | foreign k who a b => exact absurd h (by simp [step])
+    have hkeep := lpVault_keep op hI h
     have := min_liq_pos
     rcases hkeep with hk | hk <;> omega
   · have := hI'.lpSum
@@ -286,6 +307,48 @@ theorem deposit_then_withdraw_le {s s1 s2 : St} {who amount sent lp : Nat} (hI :
       have : shareOf s1 lp * (s.sup + lp) ≤ shareOf s1 lp * (s.sup + depositMint s amount) :=
         Nat.mul_le_mul_left _ (by omega)
       exact le_trans this hshare
+
+/-! ### coins attached to a message that does not ask for them
+
+`price_step`, `inv_reach`, `price_reach`, `locked_forever` above quantify over ALL operations, the
+ones carrying stray coins (`Op.attach`) included. The theorems below say what such coins are. -/
+
+/-- **Stray coins never lower the share price and never touch the share ledgers**: a message sent to
+    the vault or the router with coins attached that it does not ask for (any sender, the vault asset's
+    own denom or an unrelated one, any amount) runs exactly as the same message without coins from a
+    state `s1` that differs from `s` by at most a donation — the vault's balance did not fall, pending
+    fees, share supply, every share balance and the locked minimum are those of `s`, the invariant
+    holds — so (by `price_step` for the message itself) assets per share did not fall. -/
+theorem stray_coins_never_lower_price {s s' : St} {who sel n : Nat} {op : Op} (hI : Inv s)
+    (h : step s (.attach who sel n op) = some s') :
+    ∃ s1, step s1 op = some s' ∧ Inv s1 ∧ backing s ≤ backing s1 ∧ s1.sup = s.sup ∧ s1.lb = s.lb ∧
+      s1.lpVault = s.lpVault ∧ s1.pend = s.pend ∧
+      (0 < s.sup → backing s * s'.sup ≤ backing s' * s.sup) := by
+  obtain ⟨dst, s1, _, _, ha, hs⟩ := attach_parts h
+  have A := arrive_spec hI ha
+  exact ⟨s1, hs, A.inv, A.backing_le, A.sup, A.lb, A.lpVault, A.pend, (price_step _ hI h).2⟩
+
+/-- `Deposit` on a vault accepts exactly the announced amount of the asset (native: the coins of the
+    asset's denom attached; cw20: the allowance): one unit more or less attached is refused
+    (`FundsMismatch`) — extra coins of the asset's denom can never be credited or swallowed. -/
+theorem deposit_exact_funds {s s' : St} {who amount sent : Nat}
+    (h : step s (.deposit who amount sent) = some s') : sent = amount := by
+  simp only [step] at h
+  split at h
+  · cases h
+  · obtain ⟨hok, _⟩ := deposit_ok_of_some h
+    simp only [depositOk, Bool.and_eq_true, decide_eq_true_eq] at hok
+    exact hok.1.2
+
+/-- Coins of an unrelated denom attached to a `Deposit` do not change what the deposit mints or moves:
+    the depositor gets exactly the shares of the same deposit without them. -/
+theorem deposit_with_foreign_coins {s s' : St} {who sel n w amount sent : Nat} (hsel : sel ≠ 0)
+    (h : step s (.attach who sel n (.deposit w amount sent)) = some s') :
+    ∃ s1, step s1 (.deposit w amount sent) = some s' ∧ s1.bal = s.bal ∧ s1.ab = s.ab ∧ s1.lb = s.lb ∧
+      s1.sup = s.sup ∧ s1.pend = s.pend ∧ depositMint s1 amount = depositMint s amount := by
+  obtain ⟨dst, s1, _, _, ha, hs⟩ := attach_parts h
+  obtain ⟨rfl, _⟩ := arrive_junk hsel ha
+  exact ⟨_, hs, rfl, rfl, rfl, rfl, rfl, rfl⟩
 
 /-- non-vacuity: a concrete history (deposit, loan with fees, collect, partial withdrawal) from the
     initial state satisfies the invariant, has shares outstanding, and its share price moved up. -/
